@@ -4,7 +4,9 @@ package main
 // (variadic formatting, in-place sorting with write-back, sync primitives).
 
 import (
+	"fmt"
 	"go/types"
+	"os"
 	"strings"
 
 	"golang.org/x/tools/go/ssa"
@@ -179,6 +181,10 @@ func (x *Exec) onceDo(st *State, in ssa.Instruction, args []Value) Value {
 	}
 	// Model: the closure's effect is applied (it may also have been applied before; the obligations inside the
 	// closure body are generated when the closure is verified on its own). Here its write set is havoced.
+	if os.Getenv("GOVC_DEBUG_WS") != "" {
+		ws := x.prog.writeSet(fv.Fn)
+		fmt.Fprintf(os.Stderr, "once.Do writeset of %s: all=%v %v\n", fv.Fn.Name(), ws.All, ws.Names)
+	}
 	x.applyFrame(st, x.prog.writeSet(fv.Fn))
 	for _, b := range fv.Bind {
 		if p, ok := b.(*Ptr); ok && p.Cell != nil {
